@@ -38,7 +38,10 @@ def reg_a(t, k, sn):
 
     @t.Resolver("Query.v", **kw)
     async def rv(parent, args, ctx, info):
-        return "R%d" % k
+        # user code may keep and modify the dictionary it receives: it must be this call's own
+        stale = "__scribbled__" in args
+        args["__scribbled__"] = k
+        return "R%d" % k if not stale else "R%d (args already modified by bundle %r)" % (k, args.get("__scribbled__"))
 
     @t.Resolver("Query.sc", **kw)
     async def rsc(parent, args, ctx, info):
@@ -185,6 +188,16 @@ def twin_engines(t, tag):
             SchemaRegistry._schemas.pop(sn, None)
         except Exception:
             pass
+    # two engines refusing introspection: each refusal names its own field (response key, position in its own text)
+    import introworld
+    e1, e2 = introworld.cook(), introworld.cook()
+    for eng, k in ((e1, 1), (e2, 0), (e1, 3), (e2, 2), (e1, 4)):
+        text, key, token = introworld.REFUSED[k]
+        try:
+            resp = main_loop().run(eng.execute(text))
+        except BaseException as e:
+            resp = {"__raised__": repr(e)}
+        out.extend("refusing engines: " + m for m in introworld.check_refusal(text, key, token, resp))
     # a bundle that cannot be cooked alone (a directive hook that is not awaitable) cannot be cooked after other engines either
     sn = unique_schema_name("twinbad%s" % tag)
 
